@@ -264,12 +264,14 @@ func init() {
 			if !src.Flags.Has(jsonflags.Marshalers) {
 				return (*Marshalers)(nil), false
 			}
-			return src.Marshalers.(*Marshalers), true
+			m, _ := src.Marshalers.(*Marshalers)
+			return m, true
 		case *unmarshalersOption:
 			if !src.Flags.Has(jsonflags.Unmarshalers) {
 				return (*Unmarshalers)(nil), false
 			}
-			return src.Unmarshalers.(*Unmarshalers), true
+			u, _ := src.Unmarshalers.(*Unmarshalers)
+			return u, true
 		default:
 			panic(fmt.Sprintf("unknown option %T", zero))
 		}
@@ -278,10 +280,16 @@ func init() {
 		switch src := src.(type) {
 		case *marshalersOption:
 			dst.Flags.Set(jsonflags.Marshalers | 1)
-			dst.Marshalers = (*Marshalers)(src)
+			dst.Marshalers = nil // a nil *Marshalers is equivalent to an empty list
+			if src != nil {
+				dst.Marshalers = (*Marshalers)(src)
+			}
 		case *unmarshalersOption:
 			dst.Flags.Set(jsonflags.Unmarshalers | 1)
-			dst.Unmarshalers = (*Unmarshalers)(src)
+			dst.Unmarshalers = nil // a nil *Unmarshalers is equivalent to an empty list
+			if src != nil {
+				dst.Unmarshalers = (*Unmarshalers)(src)
+			}
 		default:
 			panic(fmt.Sprintf("unknown option %T", src))
 		}
